@@ -96,8 +96,9 @@ def run_c07(oc, repo, seed, tier):
 # ---------------------------------------------------------------------------------------------------------------------
 # harness/coin_rec.cpp --count 1 [--shapes4 1]: parts 0..14 single scenarios (the classic ones carry the exhaustive down-sampling
 # merges too), 15..17 duplicate-heavy streams per family (outlier + copies, two values, runs of equal values; plain and merged),
-# then the REQ merge-shape batches: 108 scenarios over 3 sketches (6 parts), thorough + 648 over 4 sketches (12 parts)
-N_PARTS = {Q: 24, T: 36}
+# 18 copies (the history continues on a copy taken at several points; classic merges into a target whose sorted view is cached),
+# then the REQ merge-shape batches (each also with the merged sketch replaced by a copy of itself): 108 scenarios over 3 sketches (6 parts), thorough + 648 over 4 sketches (12 parts)
+N_PARTS = {Q: 25, T: 37}
 
 
 def coin_nontrivial(evs):
@@ -109,7 +110,7 @@ def coin_nontrivial(evs):
 COIN_JOB = job("quantcoin",
     harness="coin_rec", inc=["common", "kll", "req", "quantiles"], spec="TraceCoin", owners=["C08"],
     files=N_PARTS,
-    args=lambda tier, seed, k, profile: ["--seed", seed // 1000, "--fmax", 12 if tier == Q else (16 if k < 18 else 14), "--part", k,
+    args=lambda tier, seed, k, profile: ["--seed", seed // 1000, "--fmax", 12 if tier == Q else (16 if k < 19 else 14), "--part", k,
                                          "--shapes4", 0 if tier == Q else 1],
     nontrivial=coin_nontrivial, heap="6g", par=6,
 )
